@@ -423,3 +423,72 @@ func TestC17_DpkgGuardExt(t *testing.T) {
 		}
 	})
 }
+
+// ------------------------------------------------------------------ I/O buffer edges
+
+var specC17Edge = Register(&Spec[ClDoc]{
+	Prop: "C17", Name: "bufferedge",
+	Rule: "bounded-exhaustive over buffer alignment: for a few generated changelogs with >= 2 entries, a padding change line '  * xxxx...' is added to the first entry with a length chosen so that each line boundary of the document in turn lands at 4096-1, 4096, 4096+1, 8192-1, 8192, 8192+1 bytes from the start (changelog.Parse reads through a 4096-byte bufio.Reader). Oracle as C17/model. Non-trivial: every case; distinct by text.",
+	Check: func(d ClDoc, r *Recorder) error {
+		text := renderClDoc(d)
+		r.Case(text, true)
+		if len(text)%53 == 0 {
+			r.Sample(map[string]interface{}{"bytes": len(text), "entries": len(d.Entries)})
+		}
+		got, err := changelog.Parse(strings.NewReader(text))
+		if err != nil {
+			return errf("Parse rejected a well-formed changelog of %d bytes: %v", len(text), err)
+		}
+		if err := entriesMatch(got, d.Entries); err != nil {
+			return errf("changelog of %d bytes (first entry %d bytes): %v", len(text), len(d.Entries[0].Body), err)
+		}
+		return nil
+	},
+})
+
+func TestC17_BufferEdgeExh(t *testing.T) {
+	n := pickN(3, 20)
+	var docs []ClDoc
+	sink := &Spec[ClDoc]{Check: func(d ClDoc, r *Recorder) error { docs = append(docs, d); return nil }}
+	rapidCollect(t, sink, func(t *rapid.T) ClDoc {
+		for {
+			d := genClDoc(t)
+			if len(d.Entries) >= 2 {
+				if len(d.Entries) > 3 {
+					d.Entries = d.Entries[:3]
+				}
+				return d
+			}
+		}
+	}, n)
+	withPad := func(d ClDoc, pad int) ClDoc {
+		out := d
+		out.Entries = append([]ClEntry{}, d.Entries...)
+		e := out.Entries[0]
+		e.Body = "  * " + strings.Repeat("x", pad) + "\n" + e.Body
+		out.Entries[0] = e
+		return out
+	}
+	specC17Edge.Enumerate(t, true, func(_ *Recorder, yield func(ClDoc) bool) {
+		for _, d := range docs {
+			zero := renderClDoc(withPad(d, 0))
+			for pos := 0; pos < len(zero); pos++ {
+				if zero[pos] != '\n' {
+					continue
+				}
+				end := pos + 1
+				for _, mark := range []int{4096, 8192} {
+					for dd := -1; dd <= 1; dd++ {
+						pad := mark + dd - end
+						if pad < 1 {
+							continue
+						}
+						if !yield(withPad(d, pad)) {
+							return
+						}
+					}
+				}
+			}
+		}
+	})
+}
